@@ -93,6 +93,7 @@ type FailReader struct {
 	Err      error // the error to fail with (default ErrInjected)
 	Once     bool  // the error is reported once; later calls say io.EOF (a connection after a reset)
 	Resume   bool  // the error is reported once; later calls go on delivering the data (a transient failure)
+	WithData bool  // the error comes together with the last bytes in front of At (n > 0 and err != nil in one call)
 	pos      int
 	Returned int // how many times the error was returned to the caller
 }
@@ -130,6 +131,13 @@ func (f *FailReader) Read(p []byte) (int, error) {
 	}
 	copy(p, f.Data[f.pos:f.pos+n])
 	f.pos += n
+	if f.WithData && f.pos == limit && f.At < len(f.Data) && f.Returned == 0 {
+		f.Returned++
+		if f.Err != nil {
+			return n, f.Err
+		}
+		return n, ErrInjected
+	}
 	return n, nil
 }
 
